@@ -493,19 +493,40 @@ def s_pure_functions(tier):
         x, y = np.asarray(x, dtype=float), np.asarray(y, dtype=float)
         return x.shape == y.shape and bool(np.array_equal(x, y, equal_nan=True))
 
+    def _arrs(x):
+        if isinstance(x, np.ndarray):
+            yield x
+        elif isinstance(x, (tuple, list)):
+            for e in x:
+                yield from _arrs(e)
+
     def sweep(label, fn, args):
         before = [a.copy() if isinstance(a, np.ndarray) else a for a in args]
         first = fn(*args)
         untouched = all(same(a, b) for a, b in zip(args, before) if isinstance(a, np.ndarray))
         for a in args:
             if isinstance(a, np.ndarray):
-                new = GEN_FOR[id(a)]()
-                a[...] = new
+                a[...] = GEN_FOR[id(a)]()
         again = fn(*args)
         fresh = fn(*[a.copy() if isinstance(a, np.ndarray) else a for a in args])
-        ok = same(again, fresh)
-        out.append(dict(name=f"{label}: second call with the same array objects overwritten in place evaluates the new values", ok=ok, backend="native-execution (second call on overwritten arguments vs copies)", show="equal" if ok else f"stale: {same(again, first)}", detail="the second call does not belong to the current contents of its arguments", replay=None if ok else {"function": label, "stale": bool(same(again, first))}))
+        ok = same_all(again, fresh)
+        out.append(dict(name=f"{label}: second call with the same array objects overwritten in place evaluates the new values", ok=ok, backend="native-execution (second call on overwritten arguments vs copies)", show="equal" if ok else f"stale: {same_all(again, first)}", detail="the second call does not belong to the current contents of its arguments", replay=None if ok else {"function": label, "stale": bool(same_all(again, first))}))
         out.append(dict(name=f"{label}: the call does not modify its arguments", ok=untouched, backend="native-execution", show=str(untouched), detail="an argument array was written to", replay=None if untouched else {"function": label}))
+        # each call hands out arrays of its own: what a caller writes into an earlier result must not reach a later call (a
+        # memo that returns its stored arrays - lru_cache around a function that builds arrays - fails here)
+        keep = [np.array(r, copy=True) for r in _arrs(fresh)]
+        for r in list(_arrs(fresh)) + list(_arrs(again)) + list(_arrs(first)):
+            if r.flags.writeable and r.size:
+                r[...] = 12345.0
+        later = list(_arrs(fn(*[a.copy() if isinstance(a, np.ndarray) else a for a in args])))
+        own = len(keep) == len(later) and all(np.array_equal(x, y, equal_nan=True) for x, y in zip(keep, later))
+        out.append(dict(name=f"{label}: a result modified by its caller does not change what a later call returns", ok=own, backend="native-execution (earlier results overwritten)", show=str(own), detail="a later call returned what the caller wrote into an earlier result: results are shared with a memo", replay=None if own else {"function": label}))
+
+    def same_all(x, y):
+        xs, ys = list(_arrs(x)), list(_arrs(y))
+        if not xs and not ys:
+            return same(x, y)
+        return len(xs) == len(ys) and all(same(p_, q_) for p_, q_ in zip(xs, ys))
 
     GEN_FOR = {}
     for mod in (rot, alg):
@@ -530,6 +551,13 @@ def s_pure_functions(tier):
                     sweep(f"{mod.__name__.split('.')[-1]}.{name}", fn, args)
                 except Exception as e:  # noqa: BLE001  (a function this sweep cannot call is listed, not failed)
                     unknown.append(f"{mod.__name__.split('.')[-1]}.{name}: {type(e).__name__}")
+    from cardillo.rods.discretization.gauss import gauss, lobatto
+
+    for nm, rule in (("gauss", gauss), ("lobatto", lobatto)):
+        for npts in (2, 3):
+            iv = np.array([0.0, 0.25])
+            GEN_FOR[id(iv)] = lambda: np.array([0.25, 0.75])
+            sweep(f"discretization.{nm}(n={npts})", lambda iv_, npts=npts, rule=rule: rule(npts, interval=iv_), [iv])
     A = rng.normal(size=(3, 3))
     Askew = A - A.T
     GEN_FOR[id(Askew)] = lambda: (lambda B: B - B.T)(rng.normal(size=(3, 3)))
@@ -544,5 +572,86 @@ def s_pure_functions(tier):
                 unknown.append(f"prox.Sphere.prox: {type(e).__name__}: {e}")
         else:
             sweep("prox.NegativeOrthant.prox", lambda x_: obj.prox(x_), [x])
-    out.append(dict(name="vacuity guard: the sweep reaches at least 30 functions", ok=len(out) >= 60, backend="native-execution", show=f"{len(out) // 2} functions swept; not swept: {unknown}"))
+    out.append(dict(name="vacuity guard: the sweep reaches at least 30 functions", ok=len(out) >= 90, backend="native-execution", show=f"{len(out) // 3} functions swept; not swept: {unknown}"))
+    return out
+
+
+@static("C26", "read-only-results")
+def s_read_only(tier):
+    """Frame condition on the CLIENTS of the memoised methods, decided dynamically over the whole code base instead of the
+    class files the syntactic analysis reads: every array a memoised method stores in its cache is made read-only
+    (numpy's writeable flag - the array object handed to the caller IS the cached one), then every System evaluation
+    routine is executed, twice and in both orders, on real systems that contain every contribution class.  A client that
+    updates such a result in place (`v = body.v_P(...); v -= ...`) stops with numpy's 'assignment destination is
+    read-only'; on a correct tree nothing does."""
+    import contextlib
+    import inspect
+    import io
+    import traceback
+    import warnings
+
+    from cachetools import LRUCache
+
+    from contracts.C14 import _EVAL_ARGS, _EVAL_SKIP, _real_scenes
+
+    class Freezing(LRUCache):
+        def __setitem__(self, key, value, **kw):
+            for a in _arrays(value):
+                a.setflags(write=False)
+            super().__setitem__(key, value, **kw)
+
+    def _arrays(x):
+        if isinstance(x, np.ndarray):
+            yield x
+        elif isinstance(x, (tuple, list)):
+            for e in x:
+                yield from _arrays(e)
+
+    def install(obj, seen, depth=0):
+        n = 0
+        if id(obj) in seen or depth > 2:
+            return 0
+        seen.add(id(obj))
+        for name, val in list(getattr(obj, "__dict__", {}).items()):
+            if type(val) is LRUCache:
+                setattr(obj, name, Freezing(maxsize=val.maxsize))
+                n += 1
+            elif hasattr(val, "__dict__") and type(val).__module__.startswith("cardillo"):
+                n += install(val, seen, depth + 1)
+        return n
+
+    out = []
+    rng = np.random.default_rng(3)
+    with warnings.catch_warnings(), contextlib.redirect_stdout(io.StringIO()):
+        warnings.simplefilter("ignore")
+        for name, build in _real_scenes().items():
+            s = build()
+            s.assemble()
+            seen, ncache = set(), 0
+            for c in s.contributions:
+                ncache += install(c, seen)
+                for sub in ("subsystem", "subsystem1", "subsystem2"):
+                    if hasattr(c, sub):
+                        ncache += install(getattr(c, sub), seen)
+            vals = dict(t=0.37, q=s.q0 + 0.05 * rng.normal(size=s.nq), u=rng.normal(size=s.nu), u_dot=rng.normal(size=s.nu), la_g=rng.normal(size=s.nla_g), la_gamma=rng.normal(size=s.nla_gamma), la_c=rng.normal(size=s.nla_c), la_N=rng.normal(size=s.nla_N), la_F=rng.normal(size=s.nla_F))
+            fns = []
+            for n_, f in inspect.getmembers(type(s), inspect.isfunction):
+                ps = [p for p in inspect.signature(f).parameters if p not in ("self", "format")]
+                if not n_.startswith("_") and n_ not in _EVAL_SKIP and set(ps) <= set(_EVAL_ARGS):
+                    fns.append((n_, ps))
+            writes = []
+            for order in (fns, fns[::-1], fns):
+                for n_, ps in order:
+                    try:
+                        getattr(s, n_)(*[vals[p] for p in ps])
+                    except ValueError as e:
+                        if "read-only" in str(e):
+                            tb = traceback.extract_tb(e.__traceback__)
+                            site = next((f"{fr.filename.split('cardillo/')[-1]}:{fr.lineno} {fr.line}" for fr in reversed(tb) if "/cardillo/" in fr.filename), "?")
+                            writes.append(f"System.{n_}: {site}")
+                    except Exception:  # noqa: BLE001  (an evaluation this scene does not support: not this obligation's business)
+                        pass
+            writes = sorted(set(writes))
+            out.append(dict(name=f"{name}: no evaluation routine writes into an array held by a cache ({ncache} caches made read-only, {len(fns)} System routines x 3 passes)", ok=not writes, backend="native-execution (cached arrays read-only)", show="no write" if not writes else "; ".join(writes[:4]), detail="; ".join(writes[:6]), replay=None if not writes else {"scene": name, "writes": writes[:10]}))
+            out.append(dict(name=f"{name}: vacuity guard - the scene has memoised methods", ok=ncache > 0, backend="native-execution", show=str(ncache)))
     return out
